@@ -415,6 +415,28 @@ Definition fetch_fn (fe : fenv) (from : value) (name : string) : outcome string 
     end
   end.
 
+(* FetchFn(from, name) returns the ZERO reflect.Value instead of panicking (vm/runtime.go: value.Elem() of a
+   map entry that IsValid): the entry of an interface-typed map is a nil interface, or the entry of a
+   pointer-typed map is a nil pointer.  A plain call then panics in Call (fetch_fn: EReflect); the
+   OpMethodNilSafe arm tests IsValid() and pushes nil.  Confirmed on the code (probe of 2026-09-23), with
+     M  : map[string]interface{} = nili -> nil, nilp -> typed nil pointer to T, nilf -> nil func() int
+     MP : map[string] pointer to T = nilp -> nil
+     M.nili()     reflect: call of reflect.Value.Call on zero Value      M?.nili()   nil (no error)
+     MP.nilp()    reflect: call of reflect.Value.Call on zero Value      MP?.nilp()  nil (no error)
+     M.nilp()     reflect: call of reflect.Value.Call on ptr Value       M?.nilp()   the same error
+     M.nilf()     reflect.Value.Call: call of nil function               M?.nilf()   the same error
+     M.missing()  cannot get missing from map[string]interface {}        M?.missing() the same error *)
+Definition fetch_fn_zero (from : value) (name : string) : bool :=
+  match from with
+  | VMap _ et m =>
+      match assoc_val (VStr name) m with
+      | Some VNil => match et with TIface => true | _ => false end
+      | Some (VNilPtr _) => match et with TIface => false | _ => true end
+      | _ => false
+      end
+  | _ => false
+  end.
+
 Fixpoint args_ok (ins : list ty) (variadic : bool) (args : list value) {struct ins} : bool :=
   match ins, args with
   | [], [] => true
